@@ -5,11 +5,13 @@ OPTS = [dict(p_wit=1.0), dict(p_wit=1.0, p_nested=0.35, p_struct=0.7), dict(p_wi
         # control structures nested in FSM states (FSM in FSM), many witnesses
         dict(p_wit=1.0, p_fsm=0.75, p_struct=0.85, wit_rounds=3, max_t=2, max_m=2, p_rel=0.2, _weight=2),
         # always_body transactions that lose arbitration or wait for a callee
-        dict(p_wit=1.0, p_always=0.7, max_m=2, max_t=4, wit_rounds=2)]
+        dict(p_wit=1.0, p_always=0.7, max_m=2, max_t=4, wit_rounds=2),
+        # multi-bit If/Elif conditions (non-zero means true)
+        dict(p_wit=1.0, p_widecond=1.0, p_struct=0.8, wit_rounds=2)]
 
 
 def run(rep):
-    core_check(rep, "C06", [dict(o) for o in OPTS], 96, 2400, nontrivial_key="impl_designs_built")
+    core_check(rep, "C06", [dict(o) for o in OPTS], 112, 2800, nontrivial_key="impl_designs_built")
     rep.coverage["rule"] = ("random designs from vlib/coregen.py's grammar built with the real API, every valuation of the "
                             "control inputs (or random ones when there are many), both directions bound by TxnCoreTrace; "
                             "witness signals in comb/sync/av_comb/top_comb at random depths: WitComb, WitAv, WitTop, WitSync, AvReadyGated; distinct_nontrivial = built designs")
